@@ -1,5 +1,6 @@
 import UF.Spec.DnsRewrite
 import UF.Proofs.DnsRewrite
+import UF.Proofs.DnsRewriteExamples
 /-
   C09 — effective DNS rewrites apply every matching exception, in any order.
   Property theorems only (helper lemmas live in UF/Proofs/DnsRewrite.lean).
@@ -114,15 +115,6 @@ theorem c09_perm (res res' : List NetRule)
 
 /-! #### non-vacuity and the old shape (D8) -/
 
-def rw1 : DnsRewrite := { rrType := 1, value := .addr { is4 := true, val := 0x01010101 } }
-def rw2 : DnsRewrite := { rrType := 1, value := .addr { is4 := true, val := 0x02020202 } }
-def rwMX : DnsRewrite := { rrType := 15, value := .mx 10 (lit "mail.e.org") }
-def r1 : NetRule := { text := lit "r1", rewrite := some rw1 }
-def e1 : NetRule := { text := lit "@@r1", whitelist := true, rewrite := some rw1 }
-def r2 : NetRule := { text := lit "r2", rewrite := some rw2 }
-def e2 : NetRule := { text := lit "@@r2", whitelist := true, rewrite := some rw2 }
-def rMX : NetRule := { text := lit "mx", rewrite := some rwMX }
-def eMX : NetRule := { text := lit "@@mx", whitelist := true, rewrite := some rwMX }
 
 /-- Repaired code on the D8 replay `[r1, @@r1, @@r2, r2]`: nothing is left; the MX exception
     disables the identical MX rewrite; an unrelated rule survives in place. -/
